@@ -14,11 +14,11 @@ type Sx struct {
 	IsL  bool
 }
 
-func A(s string) *Sx              { return &Sx{Atom: s} }
-func I(i int) *Sx                 { return &Sx{Atom: strconv.Itoa(i)} }
-func I64(i int64) *Sx             { return &Sx{Atom: strconv.FormatInt(i, 10)} }
-func X(b string) *Sx              { return &Sx{Atom: "x" + hex.EncodeToString([]byte(b))} }
-func L(items ...*Sx) *Sx          { return &Sx{IsL: true, List: items} }
+func A(s string) *Sx                 { return &Sx{Atom: s} }
+func I(i int) *Sx                    { return &Sx{Atom: strconv.Itoa(i)} }
+func I64(i int64) *Sx                { return &Sx{Atom: strconv.FormatInt(i, 10)} }
+func X(b string) *Sx                 { return &Sx{Atom: "x" + hex.EncodeToString([]byte(b))} }
+func L(items ...*Sx) *Sx             { return &Sx{IsL: true, List: items} }
 func T(tag string, items ...*Sx) *Sx { return &Sx{IsL: true, List: append([]*Sx{A(tag)}, items...)} }
 func B(b bool) *Sx {
 	if b {
